@@ -94,9 +94,63 @@ func TestPortableStates(t *testing.T) {
 	h.Run(t, h.Sub[portCase]{
 		Prop: "C20", Name: "word-size-generic-states-" + buildVariant, N: 200,
 		Gen: func(t *rapid.T) portCase {
-			return portCase{Seed: rapid.Uint64().Draw(t, "seed"), Mode: rapid.IntRange(0, 3).Draw(t, "mode")}
+			return portCase{Seed: rapid.Uint64().Draw(t, "seed"), Mode: rapid.IntRange(0, 5).Draw(t, "mode")}
 		},
-		Check: checkPortable, Require: []string{"portable/mode2"},
-		Rule: "hook, every build target (amd64 default and purego, GOARCH=386 with 32-bit words): valid states of W = bits-per-word lanes (equal / single-trit differences / all different / sparse) through the build-selected transform and transformGeneric in ordinary memory with canary words around all four buffers; every lane = 81 rounds of scalar Curl-P; non-trivial = lanes differ; distinct by case",
+		Check: checkPortable, Require: []string{"portable/mode2", "portable/mode4"},
+		Rule: "hook, every build target (amd64 default and purego, GOARCH=386 with 32-bit words): valid states of W = bits-per-word lanes (equal / single-trit differences / all different / sparse / all zero except one position or a short prefix) through the build-selected transform and transformGeneric in ordinary memory with canary words around all four buffers; every lane = 81 rounds of scalar Curl-P; non-trivial = lanes differ; distinct by case",
+	})
+}
+
+// ---- many successive calls in one process ----
+
+type manyCase struct {
+	Slot  int `json:"slot"` // 0, 1, 2: handled by shards 0, 1, 2 (one per build variant)
+	Calls int `json:"calls"`
+}
+
+func TestManyCalls(t *testing.T) {
+	calls := 1<<16 + 64
+	if bits.UintSize == 32 {
+		calls = 1<<12 + 64 // (the portable code on a 32-bit target is an order of magnitude slower)
+	}
+	h.RunEnum(t, h.Enum[manyCase]{
+		Prop: "C20", Name: "many-successive-calls-" + buildVariant,
+		Rule: "2^16+64 successive calls (2^12+64 on 32-bit targets) of the build-selected transform in one process on one valid state, each result compared word for word with the first one, which is checked against the scalar reference: nothing may depend on how often the routine was called before",
+		Each: func(yield func(manyCase) bool) {
+			for slot := 0; slot < 3; slot++ {
+				if !yield(manyCase{slot, calls}) {
+					return
+				}
+			}
+		},
+		Check: func(c manyCase) (h.Info, error) {
+			info := h.Info{Class: "many-calls", NT: true}
+			if _, err := checkPortable(portCase{Seed: 20, Mode: 2}); err != nil {
+				return info, err
+			}
+			var l, hh [curl.StateSize]uint
+			for j := 0; j < bits.UintSize; j++ {
+				for i, tr := range laneTrits(20, 2, j, curl.StateSize) {
+					if tr <= 0 {
+						l[i] |= 1 << uint(j)
+					}
+					if tr >= 0 {
+						hh[i] |= 1 << uint(j)
+					}
+				}
+			}
+			var firstL, firstH [curl.StateSize]uint
+			for n := 0; n < c.Calls; n++ {
+				inL, inH := l, hh
+				var outL, outH [curl.StateSize]uint
+				curl.VerifTransform(&outL, &outH, &inL, &inH)
+				if n == 0 {
+					firstL, firstH = outL, outH
+				} else if outL != firstL || outH != firstH {
+					return info, fmt.Errorf("call number %d of the build-selected transform [%s build] in this process gives a different result for the same state than the first call", n+1, buildVariant)
+				}
+			}
+			return info, nil
+		},
 	})
 }
